@@ -12,6 +12,7 @@ import (
 	"fmt"
 	"os"
 	"path/filepath"
+	"reflect"
 	"regexp"
 	"strings"
 	"time"
@@ -185,6 +186,8 @@ func RunSession(s Session) mon.Result {
 	nontrivial := false
 	var sample map[string]interface{}
 
+	var shared []util.Option // the option slice variable of the current share group
+	sharedFrom := -1
 	for oi := range s.Ops {
 		o := &s.Ops[oi]
 		mode := ModeOf(o.API)
@@ -219,6 +222,14 @@ func RunSession(s Session) mon.Result {
 			names = canonicalOpts(o)
 		}
 		var opo []util.Option
+		if o.Share == "reuse" {
+			// the caller passes the very same slice variable again
+			if sharedFrom < 0 || !sameOptionSettings(&s.Ops[sharedFrom], o) {
+				panic("c13 harness: operation re-uses an option slice of an operation with other settings")
+			}
+			opo = shared
+			names = nil // nothing to build
+		}
 		for _, name := range names {
 			switch name {
 			case "fwc":
@@ -243,15 +254,30 @@ func RunSession(s Session) mon.Result {
 				panic("c13: unknown option name " + name)
 			}
 		}
-		if v := optsConsistent(o, names); v != "" {
+		if o.Share == "reuse" {
+			names = s.Ops[sharedFrom].Opts
+		} else {
+			shared, sharedFrom = nil, -1
+			if o.Share == "first" {
+				shared, sharedFrom = opo, oi
+			}
+		}
+		if v := optsConsistent(&s, o, names); v != "" {
 			panic("c13 harness: option list inconsistent with the operation's flags: " + v)
 		}
+		before := optionIDs(opo)
 		out, cerr := call(gd, nd, o.API, cmds, opo)
+		if !sameIDs(before, optionIDs(opo)) {
+			// observed only: C13 says nothing about the caller's slice; any consequence the property
+			// cares about shows in the next operation of the re-use group
+			obs["caller_option_slice_modified_by_call"]++
+		}
+		obs["caller_option_slice_checked"]++
 
 		bad := func(v verdict) mon.Result {
 			return mon.Result{Verdict: mon.Violated, Key: v.key,
 				Detail: fmt.Sprintf("operation %d (%s, stop=%v, strip=%v, driver list %q, operation list given=%v %q, marks %s): %s",
-					oi, o.API, o.Stop, o.Strip, s.DL, o.OLGiven, o.OL, marks(o), v.detail) + fmt.Sprintf(" [option order %v: %s; repeat %q; long %q]", names, OptShape(names), o.Repeat, o.Long),
+					oi, o.API, o.Stop, o.Strip, s.DL, o.OLGiven, o.OL, marks(o), v.detail) + fmt.Sprintf(" [option order %v: %s; repeat %q; long %q; slice %q]", names, OptShape(names), o.Repeat, o.Long, o.Share),
 				Events: tail(conn.Log(), 60), NonTrivial: true, Obs: obs}
 		}
 		if cerr != nil && Oversize(o) && !errors.Is(cerr, util.ErrTimeoutError) {
@@ -408,7 +434,36 @@ func RunSession(s Session) mon.Result {
 				}
 			}
 		}
+		if strings.HasSuffix(o.API, "file") {
+			size := 0
+			for _, c := range cmds {
+				size += len(c) + 1
+			}
+			switch {
+			case size > 65536:
+				obs["fromfile_file_over_64KiB"]++
+			case size > 4096:
+				obs["fromfile_file_over_4KiB"]++
+			}
+			if n >= 100 && size > 4096 {
+				obs["fromfile_files_with_many_short_lines"]++
+				obs["fromfile_files_with_many_short_lines:lines"] += int64(n)
+				tag("fromfile_many_lines=%v", size > 65536)
+			}
+		}
 		shape := OptShape(names)
+		if o.Share == "reuse" {
+			obs["option_slice_reused_operations"]++
+			obs["option_slice_reused:order="+shape]++
+			obs["option_slice_reused:api_"+o.API]++
+			if sent < n {
+				obs["option_slice_reused_and_stop_truncated"]++
+			}
+			if o.OLGiven && len(o.OL) > 0 && nFailed > 0 {
+				obs["option_slice_reused_and_op_list_member_failed"]++
+			}
+			tag("option_slice=reused")
+		}
 		obs["option_order:"+shape]++
 		tag("option_order=%s", shape)
 		seenForeign := false
@@ -460,11 +515,38 @@ func RunSession(s Session) mon.Result {
 	return res
 }
 
+func sameOptionSettings(a, b *Op) bool {
+	return a.OLGiven == b.OLGiven && a.Stop == b.Stop && a.Strip == b.Strip && a.Exact == b.Exact &&
+		strings.Join(a.OL, "\x00") == strings.Join(b.OL, "\x00") && strings.Join(a.Opts, ",") == strings.Join(b.Opts, ",")
+}
+
+// optionIDs identifies the options in a slice by their code pointers (every option constructor is
+// a distinct function literal and no list holds the same kind twice).
+func optionIDs(l []util.Option) []uintptr {
+	ids := make([]uintptr, len(l))
+	for i, f := range l {
+		ids[i] = reflect.ValueOf(f).Pointer()
+	}
+	return ids
+}
+
+func sameIDs(a, b []uintptr) bool { return len(diffIDs(a, b)) == 0 }
+
+func diffIDs(a, b []uintptr) []int {
+	var d []int
+	for i := range a {
+		if i >= len(b) || a[i] != b[i] {
+			d = append(d, i)
+		}
+	}
+	return d
+}
+
 // neverRe is an interim prompt pattern that no device output can match (outputs contain no NUL).
 var neverRe = regexp.MustCompile(`(?m)^\x00never\x00$`)
 
 // optsConsistent checks that the option names carry exactly the operation's semantic flags.
-func optsConsistent(o *Op, names []string) string {
+func optsConsistent(s *Session, o *Op, names []string) string {
 	has := map[string]int{}
 	for _, n := range names {
 		has[n]++
@@ -477,8 +559,8 @@ func optsConsistent(o *Op, names []string) string {
 	if (has["fwc"] == 1) != o.OLGiven || (has["stop"] == 1) != o.Stop || (has["nostrip"] == 1) == o.Strip || (has["exact"] == 1) != o.Exact {
 		return fmt.Sprintf("%v", names)
 	}
-	if has["priv"] == 1 && !strings.HasPrefix(o.API, "cfg") {
-		return "priv on a non-config API"
+	if has["priv"] == 1 && s.Driver != "network" {
+		return "priv on the generic driver" // on network non-config calls every layer ignores it
 	}
 	return ""
 }
@@ -810,6 +892,9 @@ func init() {
 			"(identical failed members; the aggregate is compared by position and pointer identity, not by value), or as controls the same text with differing outputs / differing texts with identical output. " +
 			"About 1/8 of the from-file operations (1/40 of the others, as a control) contain one command line of 4097-65000 bytes (boundary 4097-4099, two, three/four and many 4096-byte buffers; " +
 			"short ones only where reads are tiny), which must reach the device as one line; 1/100 of the from-file operations have a line of 65536-70000 bytes (error with nothing sent, or everything sent). " +
+			"About one operation in eight is followed by 1-2 extra operations (other command lists, any entry point of the driver) that are called with the very same option slice variable " +
+			"(always holding an option of another layer, in every order relative to the generic ones); whether a call modified the caller's option slice is counted (caller_option_slice_modified_by_call), never judged. " +
+			"A few sessions (quick 8, thorough 36) send one command file of 300-600 short lines (5-11 KiB) or 4000-4500 short lines (> 64 KiB). " +
 			"Decoys: unlisted string, driver-level string while an operation-level list overrides it, string of another operation's list, string only in the echoed command, " +
 			"case variant, string broken by a newline, proper prefix. Placement first/middle/last line x start/mid/end/whole line, optionally broken by an escape sequence or CR, several per output. " +
 			"Non-trivial = a session in which at least one returned member failed per the reference (a failure string in force is present in some output). Distinct = distinct descriptor hash.",
